@@ -90,9 +90,46 @@ def is_bound_reraise(st, bound):
     return isinstance(st, ast.Raise) and (st.exc is None or (isinstance(st.exc, ast.Name) and st.exc.id == bound and st.cause is None))
 
 
-def handler_action(h, fname):
+def guarded_head(h):
+    """`if <var> is None and isinstance(<bound>, C): <no raise/loop control>; return False|None` at the head of an except
+    clause: returns (var, classes, action) or None"""
+    if not h.body or not isinstance(h.body[0], ast.If) or h.name is None:
+        return None
+    st = h.body[0]
+    t = st.test
+    if not (isinstance(t, ast.BoolOp) and isinstance(t.op, ast.And) and len(t.values) == 2) or st.orelse:
+        return None
+    var = classes = None
+    for v in t.values:
+        if isinstance(v, ast.Compare) and isinstance(v.left, ast.Name) and len(v.ops) == 1 and isinstance(v.ops[0], ast.Is) \
+                and isinstance(v.comparators[0], ast.Constant) and v.comparators[0].value is None:
+            var = v.left.id
+        elif isinstance(v, ast.Call) and isinstance(v.func, ast.Name) and v.func.id == "isinstance" and len(v.args) == 2 \
+                and isinstance(v.args[0], ast.Name) and v.args[0].id == h.name:
+            classes = class_tuple(v.args[1])
+    if var is None or classes is None:
+        return None
+    last = st.body[-1]
+    if not isinstance(last, ast.Return):
+        return None
+    for x in st.body[:-1]:
+        if contains(x, (ast.Raise, ast.Return, ast.Break, ast.Continue)):
+            return None
+    v = last.value
+    if v is None or (isinstance(v, ast.Constant) and v.value is None):
+        act = "ARetNone"
+    elif isinstance(v, ast.Constant) and isinstance(v.value, bool):
+        act = "ARetTrue" if v.value else "ARetFalse"
+    else:
+        return None
+    return var, classes, act
+
+
+def handler_action(h, fname, skip_head=False):
     """classify what an except clause does with the caught exception"""
-    body = h.body
+    body = h.body[1:] if skip_head else h.body
+    if not body:
+        return "ASwallow"
     calls_reply = any(isinstance(n, ast.Call) and isinstance(n.func, ast.Attribute) and n.func.attr == "_sendExceptionResponse"
                       for st in body for n in ast.walk(st))
     if calls_reply:
@@ -120,6 +157,23 @@ def handler_action(h, fname):
     for st in body:
         need(not contains(st, (ast.Break, ast.Continue, ast.Return)), "conditional break/continue/return in an except clause of " + fname)
     return "ASwallow"
+
+
+def check_recv_var(func, trynode, var):
+    """`var is None` inside a handler of trynode means 'the exception surfaced at the recv_stub call' only if var is set
+    to None before the try and assigned in the try body by the recv_stub call statement alone"""
+    assigns = [n for n in ast.walk(func) if isinstance(n, (ast.Assign, ast.AugAssign, ast.AnnAssign, ast.NamedExpr, ast.For, ast.With, ast.Delete))
+               and any(isinstance(t, ast.Name) and t.id == var and isinstance(t.ctx, (ast.Store, ast.Del)) for t in ast.walk(n) if isinstance(t, ast.Name))]
+    pre = [a for a in assigns if a.lineno < trynode.lineno]
+    need(len(pre) == 1 and isinstance(pre[0], ast.Assign) and isinstance(pre[0].value, ast.Constant) and pre[0].value.value is None,
+         "%s: guard variable %s is not initialised to None before the try" % (func.name, var))
+    body_lines = (trynode.body[0].lineno, trynode.body[-1].end_lineno)
+    inbody = [a for a in assigns if body_lines[0] <= a.lineno <= body_lines[1]]
+    need(len(inbody) == 1 and isinstance(inbody[0], ast.Assign) and call_kind(inbody[0].value) == "KRecvStub"
+         and inbody[0] is trynode.body[0],
+         "%s: guard variable %s is not assigned by the recv_stub call at the head of the try only" % (func.name, var))
+    hl = (trynode.handlers[0].lineno, trynode.handlers[-1].end_lineno)
+    need(not [a for a in assigns if hl[0] <= a.lineno <= hl[1]], "%s: guard variable %s assigned inside a handler" % (func.name, var))
 
 
 def call_kind(node):
@@ -178,7 +232,14 @@ def analyse(func, cname):
             stmts(st.body, ordn)
             for h in st.handlers:
                 mark(h, cur)
-                site["handlers"].append((class_tuple(h.type), handler_action(h, func.name)))
+                gh = guarded_head(h)
+                if gh is not None:
+                    var, classes, act = gh
+                    check_recv_var(func, st, var)
+                    site["handlers"].append((classes, "GAtRecv", act))
+                    site["handlers"].append((class_tuple(h.type), "GAlways", handler_action(h, func.name, skip_head=True)))
+                else:
+                    site["handlers"].append((class_tuple(h.type), "GAlways", handler_action(h, func.name)))
                 stmts(h.body, cur)
             stmts(st.orelse, cur)
             stmts(st.finalbody, cur)
@@ -190,7 +251,7 @@ def analyse(func, cname):
                 args = sup[0].context_expr.args
                 need(args and not sup[0].context_expr.keywords, "contextlib.suppress without classes")
                 ordn = len(sites)
-                sites.append({"fn": cname, "ord": ordn, "handlers": [([class_name(a) for a in args], "ASwallow")],
+                sites.append({"fn": cname, "ord": ordn, "handlers": [([class_name(a) for a in args], "GAlways", "ASwallow")],
                               "finally": False, "outer": cur, "kind": "suppress", "line": st.lineno})
                 stmts(st.body, ordn)
                 return
@@ -341,7 +402,7 @@ def gen_handlers(tree):
         info_funcs[cname] = {"file": rel.split("/")[-1], "name": fname, "firstlineno": func.lineno,
                              "lines": {str(k): v for k, v in sorted(lines.items())},
                              "sites": [{"ord": s["ord"], "kind": s["kind"], "line": s["line"], "outer": s["outer"], "finally": s["finally"],
-                                        "handlers": [[c, a] for c, a in s["handlers"]]} for s in sites],
+                                        "handlers": [[c, a, g] for c, g, a in s["handlers"]]} for s in sites],
                              "anchors": [{"kind": a["kind"], "idx": a["idx"], "site": a["site"], "line": a["line"]} for a in anchors]}
         shas[cname] = ast_sha(func)
         if cname == "FHandleRequest":
@@ -352,7 +413,7 @@ def gen_handlers(tree):
     out += "Definition gen_sites : list site :=\n  [\n"
     rows = []
     for s in all_sites:
-        hs = clist(["(%s, %s)" % (clist([cstr(c) for c in cl]), act) for cl, act in s["handlers"]])
+        hs = clist(["(%s, %s, %s)" % (clist([cstr(c) for c in cl]), g, act) for cl, g, act in s["handlers"]])
         rows.append("   (* %s site %d: %s at line %d *)\n   {| s_fn := %s; s_ord := %d; s_handlers := %s; s_finally := %s; s_outer := %s |}" % (
             s["fn"], s["ord"], s["kind"], s["line"], s["fn"], s["ord"], hs, "true" if s["finally"] else "false", copt(s["outer"])))
     out += ";\n".join(rows) + "\n  ].\n\n"
